@@ -1,5 +1,5 @@
 """C04 — a stalled synchronised consumer stalls its producers (bounded buffering)."""
-from .. import protocol, sendfeed
+from .. import protocol, sendfeed, pipeline
 
 ID = 'C04'
 PROP_FILES = ['C04', 'C04Potential']
@@ -15,3 +15,4 @@ TRUSTED = ['transcription OFModel/Zmq/Sender.lean, compared call-by-call with th
 def run(ctx):
     n = 10000 if ctx.thorough else (4000 if ctx.escalate else 1000)
     protocol.send_campaign(ctx, 'C04', n, ['sync', 'sync', 'adv'], extra_oracle=sendfeed.stall_oracle)
+    if not ctx.replay: pipeline.campaign_stall(ctx, 300 if ctx.thorough else 30)
